@@ -8,21 +8,26 @@ GENERATED = []
 SOURCES = ["src/allmydata/web/filenode.py"]
 DESIGN_REF = "DESIGN.md §2 C40"
 TECHNIQUE = ("Lean 4 theorems over an executable model of FileDownloader.parse_range_header and the status/header/body decision of "
-             "FileDownloader.render; differential correspondence through the real resource (DummyRequest, real LiteralFileNode) and "
-             "an independent RFC 7233 oracle")
+             "FileDownloader.render; differential correspondence through the real resource (DummyRequest, real LiteralFileNode) and, "
+             "routed, through a real twisted.web Site + allmydata.web.root.Root + FileNodeHandler.render_GET/render_HEAD on the "
+             "in-process grid (literal, CHK, SDMF, MDMF; mutable files also after shorter/longer overwrites); an independent RFC 7233 oracle")
 LEVEL_TEXT = ("For every file and every header of the RFC 7233 single-range grammar the model's response is proved to be the RFC one "
               "(206 exact / 416 / ignored) in Lean, for the code with fixes/C40-range-edges.diff applied (a `decide`d counterexample for "
               "the code as it is); the model is tied to web/filenode.py by comparing status, Content-Range, Content-Length and body for "
               "sizes 0..300 x all range forms around the boundaries x GET/HEAD.")
 LEVEL_NOTE = ("Lean kernel + standard axioms; model hand-written, tied by correspondence; headers are ASCII (Python's int()/strip() on "
-              "non-ASCII digits and white space are outside the model); CHK and mutable nodes need a grid and are not exercised — the "
-              "resource only calls get_size() and read(consumer, offset, size) on them.")
+              "non-ASCII digits and white space are outside the model); Accept-Ranges / Content-Type / ETag are compared between HEAD and "
+              "GET on the implementation only (not modelled in Lean); HEAD omits the ETag that GET sends for CHK files (counted, not flagged).")
 RULE = ("file sizes 0..300 (quick: a seeded sample that always contains 0,1,2,3,255,256,300; thorough: all, plus random larger ones) x "
         "single first-last / first- / -suffix ranges with every bound taken around 0 and the file size, multi-range sets, white-space and "
         "lenient-numeral variants, malformed headers, x GET/HEAD, through FileDownloader.render; a case is one request; non-trivial = "
-        "the request carries a non-empty Range header")
+        "the request carries a non-empty Range header; in addition every boundary family (first-last / first- / -suffix / multi / "
+        "lenient / garbage around 0, size-1, size, size+1, size 0) is sent as GET and HEAD through the real Site/Root/FileNodeHandler "
+        "for literal, CHK, SDMF and MDMF files (mutable: as created, overwritten shorter, longer, emptied), HEAD compared with GET "
+        "(status, Content-Range, Content-Length, Accept-Ranges, Content-Type, ETag when HEAD sends one, empty body) and with the model")
 TRUSTED = ["lean/Tahoe/Web/Range.lean is a hand transcription of parse_range_header/render (str.split, str.strip and int() modelled for ASCII)",
-           "twisted.web.test.requesthelper.DummyRequest stands for the HTTP request (headers in, status/headers/body out)"]
+           "twisted.web.test.requesthelper.DummyRequest stands for the HTTP request (headers in, status/headers/body out)",
+           "harness/grid.py (in-process grid, virtual clock) and the raw HTTP/1.0 feeding shim RoutedWeb in harness/props/c40.py"]
 ASSUMPTIONS = ["filenode.get_size() is the length of the bytes that filenode.read(consumer, first, size) delivers from",
                "Range header values are ASCII"]
 
@@ -314,13 +319,235 @@ CORPUS = [
 ]
 
 
+# ----------------------------------------------------------------------------- the routed path (real Site + Root + grid)
+
+ROUTED_KINDS = ["lit", "chk", "sdmf", "mdmf"]
+LIT_MAX = 55           # URI_LIT_SIZE_THRESHOLD: upload.Data up to this size yields a LIT cap
+
+
+def routable(h):
+    """headers that reach the resource unchanged through an HTTP/1.0 request line (twisted strips outer white space)"""
+    return h is None or (h != "" and h == h.strip() and all(32 <= ord(c) < 127 or c == "\t" for c in h))
+
+
+def routed_headers(n, rng, full):
+    """every boundary family (first-last / first- / -suffix / multi / lenient / garbage) around 0, size-1, size, size+1"""
+    if full:
+        return [h for h in headers_for(n, rng) if routable(h)]
+    b = sorted({v for v in (0, 1, n - 1, n, n + 1, n + 7) if v >= 0})
+    hs = [None]
+    hs += ["bytes=%d-" % a for a in b]
+    hs += ["bytes=-%d" % a for a in sorted({v for v in (0, 1, n - 1, n, n + 1) if v >= 0})]
+    e = sorted({v for v in (0, n - 1, n, n + 1) if v >= 0})
+    hs += ["bytes=%d-%d" % (a, c) for a in e for c in e]
+    a, c = rng.choice(b), rng.choice(b)
+    hs += ["bytes=%d-%d,%d-" % (a, c, rng.choice(b)), "bytes=-%d, %d-%d" % (rng.choice(b), a, c), "bytes=%d-,-1" % n,
+           "bytes=+%d-%d" % (a, c), "bytes=%d - %d" % (a, c), "bytes=0_0-%s" % "_".join(str(n)),
+           "bytes=abc", "bits=0-%d" % n, "bytes", "bytes=%d" % n, "bytes=--%d" % max(n, 1), "BYTES=0-0"]
+    return [h for h in hs if routable(h)]
+
+
+def quiet_twisted_log():
+    """errors rendered into HTTP responses (416) are also logged by Twisted; keep them off stderr"""
+    from twisted.logger import globalLogBeginner
+    try:
+        globalLogBeginner.beginLoggingTo([lambda event: None], redirectStandardIO=False, discardBuffer=True)
+    except Exception:
+        pass
+
+
+class RoutedWeb:
+    """A real twisted.web Site (allmydata.webish.TahoeLAFSRequest + allmydata.web.root.Root) over an in-memory
+    transport on the in-process grid of harness/grid.py."""
+
+    def __init__(self, rt, client):
+        from twisted.web.server import Site
+        from allmydata.webish import TahoeLAFSRequest
+        from allmydata.web.root import Root
+        self.rt = rt
+        self.site = Site(Root(client, None, lambda: 0.0), requestFactory=TahoeLAFSRequest)
+
+    def request(self, method, path, hdr=None, body=b""):
+        """-> (status, {header: value}, body)"""
+        import grid
+        from twisted.internet import defer
+        from twisted.internet.address import IPv4Address
+        from twisted.internet.testing import StringTransport
+        from twisted.python.failure import Failure
+        from twisted.internet.error import ConnectionDone
+
+        class Transport(StringTransport):
+            def __init__(self):
+                StringTransport.__init__(self, hostAddress=IPv4Address("TCP", "127.0.0.1", 3456),
+                                         peerAddress=IPv4Address("TCP", "127.0.0.1", 50000))
+                self.closed = defer.Deferred()
+
+            def loseConnection(self):
+                StringTransport.loseConnection(self)
+                if not self.closed.called:
+                    self.closed.callback(None)
+        lines = ["%s %s HTTP/1.0" % (method, path), "Host: localhost"]
+        if hdr is not None:
+            lines.append("Range: " + hdr)
+        if body or method == "PUT":
+            lines.append("Content-Length: %d" % len(body))
+        raw = ("\r\n".join(lines) + "\r\n\r\n").encode("ascii") + body
+        proto = self.site.buildProtocol(IPv4Address("TCP", "127.0.0.1", 50000))
+        tr = Transport()
+        proto.makeConnection(tr)
+        proto.dataReceived(raw)
+        try:
+            self.rt.wait(tr.closed, horizon=600.0)
+            proto.connectionLost(Failure(ConnectionDone()))
+        except grid.Stuck:
+            proto.connectionLost(Failure(ConnectionDone()))
+            raise RuntimeError("routed %s %s (Range %r) never completed" % (method, path[:24], hdr))
+        self.rt.settle()
+        head, _, rbody = tr.value().partition(b"\r\n\r\n")
+        hl = head.split(b"\r\n")
+        status = int(hl[0].split()[1])
+        hdrs = {}
+        for line in hl[1:]:
+            k, _, v = line.partition(b":")
+            hdrs[k.strip().lower().decode("ascii")] = v.strip().decode("latin-1")
+        return status, hdrs, rbody
+
+
+def make_plans(ctx, rng):
+    """[{kind, chain (sizes: created, then overwritten ...)}]: literal, CHK, SDMF and MDMF; the mutable ones are
+    read as created, after a shorter and after a longer overwrite (and once emptied)"""
+    plans = []
+    if ctx.tier == "thorough":
+        for n in sorted({0, 1, 2, LIT_MAX - 1, LIT_MAX} | {rng.randrange(0, LIT_MAX + 1) for _ in range(6)}):
+            plans.append({"kind": "lit", "chain": [n]})
+        for n in sorted({LIT_MAX + 1, 63, 64, 65, 128, 129, 300} | {rng.randrange(LIT_MAX + 1, 700) for _ in range(6)}):
+            plans.append({"kind": "chk", "chain": [n]})
+        for kind in ("sdmf", "mdmf"):
+            for _ in range(4):
+                a = rng.randrange(1, 300)
+                plans.append({"kind": kind, "chain": [a, rng.randrange(0, a), rng.randrange(a + 1, 700), rng.choice([0, 1, 64, 65])]})
+            plans.append({"kind": kind, "chain": [0, 70, 3]})
+    else:
+        plans.append({"kind": "lit", "chain": [0]})
+        plans.append({"kind": "lit", "chain": [rng.randrange(1, LIT_MAX + 1)]})
+        plans.append({"kind": "chk", "chain": [rng.choice([LIT_MAX + 1, 64, 65, 129])]})
+        plans.append({"kind": "chk", "chain": [rng.randrange(130, 400)]})
+        for kind in ("sdmf", "mdmf"):
+            a = rng.randrange(60, 200)
+            plans.append({"kind": kind, "chain": [a, rng.randrange(1, a), rng.randrange(a + 1, 400), 0]})
+    return plans
+
+
+HEAD_FIELDS = [("status", None), ("content-range", "content-range"), ("content-length", "content-length"),
+               ("accept-ranges", "accept-ranges"), ("content-type", "content-type")]
+
+
+def run_routed(ctx, plans, cases, impl, lines, only=None):
+    """GET and HEAD through the real resource tree for every (file state, Range header).
+    `only` = (chain, hdr) restricts to one state/header (replay)."""
+    import grid
+    from common import hx
+    from allmydata.immutable import upload
+    from allmydata.mutable.publish import MutableData
+    from allmydata.interfaces import SDMF_VERSION, MDMF_VERSION
+    quiet_twisted_log()
+    rng = ctx.rng
+    base = grid.fresh_dir("c40")
+    try:
+        with grid.Runtime(seed=ctx.seed, policy="fifo") as rt:
+            g = grid.Grid(base, rt, num_servers=4, num_clients=1, k=2, happy=1, n=3, max_segment_size=64)
+            c = g.clients[0]
+            web = RoutedWeb(rt, c)
+            for plan in plans:
+                kind, chain = plan["kind"], plan["chain"]
+                n0 = chain[0]
+                if kind in ("lit", "chk"):
+                    res = rt.wait(c.upload(upload.Data(file_of(n0), convergence=b"c40" + b"\x00" * 13)))
+                    cap = res.get_uri().decode("ascii")
+                    if cap.startswith("URI:LIT:") != (kind == "lit"):
+                        raise RuntimeError("expected a %s cap for %d bytes, got %s" % (kind, n0, cap[:12]))
+                else:
+                    mn = rt.wait(c.create_mutable_file(MutableData(file_of(n0)),
+                                                       version=SDMF_VERSION if kind == "sdmf" else MDMF_VERSION))
+                    cap = mn.get_uri().decode("ascii")
+                    if cap.startswith("URI:MDMF:") != (kind == "mdmf"):
+                        raise RuntimeError("expected a %s cap, got %s" % (kind, cap[:12]))
+                path = "/uri/" + cap
+                for depth, n in enumerate(chain):
+                    if depth > 0:
+                        st, _, body = web.request("PUT", path, None, file_of(n))
+                        if st != 200:
+                            raise RuntimeError("PUT (overwrite with %d bytes) answered %r %r" % (n, st, body[:80]))
+                    if only is not None and (chain[:depth + 1] != only[0]):
+                        continue
+                    hdrs = [only[1]] if only is not None else routed_headers(n, rng, ctx.tier == "thorough" and depth == 0)
+                    state = "created" if depth == 0 else ("shorter" if n < chain[depth - 1] else "longer")
+                    ctx.count("routed-state:%s-%s" % (kind, state))
+                    for h in hdrs:
+                        got = {}
+                        for m, meth in (("G", "GET"), ("H", "HEAD")):
+                            status, rh, body = web.request(meth, path, h)
+                            resp = (status, rh.get("content-range"), rh.get("content-length"), body)
+                            got[m] = (resp, rh)
+                            case = {"route": "site", "kind": kind, "chain": chain[:depth + 1], "size": n, "method": m, "hdr": h}
+                            cases.append(case)
+                            impl.append(canon(resp))
+                            lines.append("c40 %d %s %s" % (n, m, "none" if h is None else hx(h.encode("ascii"))))
+                            ctx.case(("site", kind, n, m, h) if h else None)
+                            ctx.count("routed:%s:%s" % (kind, meth))
+                        (gresp, gh), (hresp, hh) = got["G"], got["H"]
+                        hcase = {"route": "site", "kind": kind, "chain": chain[:depth + 1], "size": n, "method": "H", "hdr": h}
+                        # --- HEAD: the same status and headers as GET, no body
+                        for name, key in HEAD_FIELDS:
+                            gv = gresp[0] if key is None else gh.get(key)
+                            hv = hresp[0] if key is None else hh.get(key)
+                            if gv != hv:
+                                ctx.violation("HEAD differs from GET in %s for Range %r on a %d-byte %s file (%s): GET %r, HEAD %r" % (
+                                    name, h, n, kind, state, (gresp[0], gresp[1], gresp[2]), (hresp[0], hresp[1], hresp[2])),
+                                    hcase, "head-differs-from-get:" + name)
+                                break
+                        if "etag" in hh and hh.get("etag") != gh.get("etag"):
+                            ctx.violation("HEAD ETag %r differs from GET ETag %r" % (hh.get("etag"), gh.get("etag")),
+                                          hcase, "head-differs-from-get:etag")
+                        if "etag" in gh and "etag" not in hh:
+                            ctx.count("note:head-omits-etag-that-get-sends")
+                        if hresp[3] != b"":
+                            ctx.violation("HEAD carried a %d-byte body for Range %r on a %d-byte %s file" % (len(hresp[3]), h, n, kind),
+                                          hcase, "head-has-body")
+                        if gresp[0] in (200, 206) and gh.get("accept-ranges") != "bytes":
+                            ctx.violation("GET answer lacks Accept-Ranges: bytes (%r)" % (gh.get("accept-ranges"),),
+                                          dict(hcase, method="G"), "accept-ranges-missing")
+                        # --- RFC 7233 oracle on both answers
+                        acc, cls = acceptable(h, n)
+                        for m in "GH":
+                            resp = got[m][0]
+                            ab = abstract(resp, n, m)
+                            ctx.count("class:" + cls)
+                            ctx.count("answer:%s" % ab[0])
+                            if ab not in acc:
+                                ctx.violation("%s through the web tree answers %r (%s) to Range %r on a %d-byte %s file (%s); acceptable: %s" % (
+                                    "GET" if m == "G" else "HEAD", canon(resp)[:80], "/".join(str(x) for x in ab), h, n, kind, state,
+                                    sorted(acc)), dict(hcase, method=m), signature(h, n, cls, ab))
+            g.close()
+    finally:
+        import shutil
+        shutil.rmtree(base, ignore_errors=True)
+
+
 def run(ctx):
     from common import hx
     rng = ctx.rng
     reqs = []     # (kind, n, method, hdr)
+    routed_only = None
+    plans = []
     if ctx.replay:
         c = ctx.replay["case"]
-        reqs.append((c.get("node", "lit"), c["size"], c["method"], c["hdr"]))
+        if c.get("route") == "site":
+            routed_only = (c["chain"], c["hdr"])
+            plans = [{"kind": c["kind"], "chain": c["chain"]}]
+        else:
+            for m in "GH":
+                reqs.append((c.get("node", "lit"), c["size"], m, c["hdr"]))
     else:
         for (n, h) in CORPUS:
             for m in "GH":
@@ -328,8 +555,8 @@ def run(ctx):
         if ctx.tier == "thorough":
             sizes = list(range(0, 301)) + [rng.randrange(301, 70000) for _ in range(40)]
         else:
-            sizes = sorted({0, 1, 2, 3, 255, 256, 300} | {rng.randrange(0, 301) for _ in range(ctx.budget(20, 20))}) + \
-                [rng.randrange(301, 70000) for _ in range(3)]
+            sizes = sorted({0, 1, 2, 3, 255, 256, 300} | {rng.randrange(0, 301) for _ in range(ctx.budget(9, 9))}) + \
+                [rng.randrange(301, 70000) for _ in range(2)]
         for n in sizes:
             kind = "lit" if n <= 300 else "fake"
             for h in headers_for(n, rng):
@@ -337,6 +564,7 @@ def run(ctx):
                     reqs.append((kind, n, m, h))
                 if kind == "lit" and h is not None and rng.random() < 0.05:
                     reqs.append(("fake", n, "G", h))
+        plans = make_plans(ctx, rng)
     impl = []
     cases = []
     got_by_key = {}
@@ -361,13 +589,18 @@ def run(ctx):
         key = (kind, n, h)
         if key in got_by_key and got_by_key[key][0] != m:
             om, oresp = got_by_key[key]
-            if (oresp[0], oresp[1]) != (resp[0], resp[1]) or (resp[0] != 416 and oresp[2] != resp[2]):
-                ctx.violation("HEAD and GET differ in status/headers for Range %r on %d bytes: %r vs %r" % (h, n, oresp[:3], resp[:3]),
-                              case, "head-differs-from-get")
+            for name, i in (("status", 0), ("content-range", 1), ("content-length", 2)):
+                if oresp[i] != resp[i] and not (i == 2 and resp[0] == 416):
+                    ctx.violation("HEAD and GET differ in %s for Range %r on %d bytes (FileDownloader.render): %r vs %r" % (
+                        name, h, n, oresp[:3], resp[:3]), case, "head-differs-from-get:" + name)
+                    break
         got_by_key[key] = (m, resp)
     lines = ["c40 %d %s %s" % (n, m, "none" if h is None else hx(h.encode("ascii"))) for (_, n, m, h) in reqs]
+    if plans:
+        run_routed(ctx, plans, cases, impl, lines, only=routed_only)
     model = ctx.model(lines)
-    ctx.compare("FileDownloader.render (status, Content-Range, Content-Length, body)", cases, impl, model)
+    ctx.compare("FileDownloader.render directly and through Site/Root/FileNodeHandler (status, Content-Range, Content-Length, body)",
+                cases, impl, model)
     for i in (0, len(cases) // 2, len(cases) - 1):
         if cases:
             ctx.sample({"case": cases[i], "impl": impl[i][:120]})
